@@ -32,6 +32,18 @@ class VGen(Value):
         return f"VGen({self.seq})"
 
 
+class VGenFlat(Value):
+    """Generator with two `for` clauses whose inner iterable is a tuple of fixed arity k (`f(b) for r in rs for b in r.pair`):
+    one VGen per component over the same outer sequence - the flattening is never indexed (no div / mod), consumers
+    (min / max) characterise it component by component, as _dictcomp_flat does for chain(*pairs)."""
+
+    def __init__(self, parts):
+        self.parts = list(parts)
+
+    def __repr__(self):
+        return f"VGenFlat({self.parts[0].seq}, arity={len(self.parts)})"
+
+
 def subst_value(v, a, b):
     if isinstance(v, VInt):
         return VInt(z3.substitute(v.t, (a, b)))
@@ -62,9 +74,11 @@ def _source_seq(eng, st, fid, gen):
     return eng.bind(eng.eval(gen.iter, st, fid), after)
 
 
-def _element(eng, node_elts, gen, st, fid, seq):
+def _element(eng, node_elts, gen, st, fid, seq, inner=None):
     """Evaluate filter and element expressions at a fresh symbolic index.
-    -> (idx const, cond term or None, [values]) ; raises Unsupported if impure / forking."""
+    -> (idx const, cond term or None, [values]) ; raises Unsupported if impure / forking.
+    inner = (second generator, component number c, box): the element is evaluated with the target of the second `for` clause bound
+    to component c of its iterable, which must be a tuple of fixed arity (reported in box["arity"])."""
     i = z3.Const(fresh_name("ci"), I)
     mark = next(V._counter)
     cf = new_fid()
@@ -81,6 +95,27 @@ def _element(eng, node_elts, gen, st, fid, seq):
         t = eng.truth(s, cv)
         t = z3.BoolVal(t) if isinstance(t, bool) else t
         cond = t if cond is None else z3.And(cond, t)
+    if inner is not None:
+        gen2, comp, box = inner
+        if cond is not None:
+            s = s.assume(cond)
+        outs = eng.eval(gen2.iter, s, cf)
+        if len(outs) != 1 or outs[0][0] != "ok":
+            raise Unsupported("inner iterable of a comprehension forks or raises")
+        _, s, itv = outs[0]
+        sq2 = B.to_seq(eng, s, itv) if isinstance(itv, VTuple) else None
+        if sq2 is None or not sq2.known_len:
+            raise Unsupported("second `for` clause of a comprehension over something else than a non-empty fixed-arity tuple")
+        box["arity"] = sq2.known_len
+        s = bind_target(eng, gen2.target, s, cf, sq2.get(s, z3.IntVal(comp)))
+        for c in gen2.ifs:
+            outs = eng.eval(c, s, cf)
+            if len(outs) != 1 or outs[0][0] != "ok":
+                raise Unsupported("comprehension filter forks or raises")
+            _, s, cv = outs[0]
+            t = eng.truth(s, cv)
+            t = z3.BoolVal(t) if isinstance(t, bool) else t
+            cond = t if cond is None else z3.And(cond, t)
     if cond is not None:
         s_e = s.assume(cond)
     else:
@@ -142,7 +177,59 @@ def _with_extras(s, seq, i, cond, extra):
     return s.assume(FA([i], z3.Implies(rng, z3.And(*extra))))
 
 
+def _genexp_flat(eng, node, st, fid):
+    """(elt for x in xs for y in <tuple expression of x>): see VGenFlat"""
+    g0, g1 = node.generators
+
+    def mk(s, seq):
+        parts, box, c = [], {}, 0
+        while c < box.get("arity", 1):
+            i, cond, vals, extra = _element(eng, [node.elt], g0, s, fid, seq, inner=(g1, c, box))
+            s = _with_extras(s, seq, i, cond, extra)
+            parts.append(VGen(seq, i, cond, vals[0]))
+            c += 1
+        return [("ok", s, VGenFlat(parts))]
+    return eng.bind(_source_seq(eng, st, fid, g0), mk)
+
+
+def minmax_gen(eng, st, g, is_min):
+    """min / max of a generator (VGen without filter, or VGenFlat): ValueError when the source sequence is empty, else a fresh
+    value m characterised by  every element >= / <= m  and  some element == m  (extended reals, or integers)."""
+    parts = g.parts if isinstance(g, VGenFlat) else [g]
+    if any(p.cond is not None for p in parts):
+        raise Unsupported("min/max of a filtered generator")
+    seq, n = parts[0].seq, parts[0].seq.n
+    probe = [p.elt for p in parts]
+    ints = all(isinstance(v, (VInt, VBool)) for v in probe)
+    if not ints and not all(isinstance(v, (VReal, VInt, VBool)) for v in probe):
+        raise Unsupported("min/max of a generator of non-numeric elements")
+    res = []
+    for nonempty, s in eng.branch(st, n > 0):
+        if not nonempty:
+            res.append(eng.raise_(s, "ValueError"))
+            continue
+        i, w = z3.Const(fresh_name("mi"), I), fresh("mw", I)
+        if ints:
+            m, dom = VInt(fresh("minmax", I)), z3.BoolVal(True)
+            val = lambda p, ix: unwrap(p.elt_at(ix), "int")  # noqa
+            le = (lambda a, b: b <= a) if is_min else (lambda a, b: a <= b)
+            bound = lambda p, ix: le(val(p, ix), m.t)  # noqa
+            hit = lambda p, ix: val(p, ix) == m.t  # noqa
+        else:
+            m, dom = xr_fresh("minmax")
+            val = lambda p, ix: eng.to_real(p.elt_at(ix))  # noqa
+            bound = (lambda p, ix: xr_le(m, val(p, ix))) if is_min else (lambda p, ix: xr_le(val(p, ix), m))
+            hit = lambda p, ix: xr_eq(val(p, ix), m)  # noqa
+        pats = [t for t in _terms(seq.get(s, i))][:1]
+        ax1 = FA([i], z3.Implies(z3.And(0 <= i, i < n), z3.And(*[bound(p, i) for p in parts])), patterns=pats)
+        ax2 = z3.And(0 <= w, w < n, z3.Or(*[hit(p, w) for p in parts]))
+        res.append(("ok", s.assume(dom, ax1, ax2), m))
+    return res
+
+
 def genexp(eng, node, st, fid):
+    if len(node.generators) == 2 and not any(g.is_async for g in node.generators):
+        return _genexp_flat(eng, node, st, fid)
     gen = _single_gen(node)
 
     def mk(s, seq):
